@@ -58,6 +58,8 @@ type ProtoCfg struct {
 	// must not precede, in the same iteration, a Send that can fail: bookkeeping
 	// done before a failed Send is repeated on the retry.
 	AllEffectsAfterSend bool
+	// NoProgressRule disables progress-after-consume for this component.
+	NoProgressRule bool
 }
 
 type sendSite struct {
@@ -145,6 +147,7 @@ func RunProto(c *core.Ctx, cfg *ProtoCfg) protoResult {
 	stUn := c.Rule(cfg.RuleBase+".unchecked", "the error result of every sim.Port.Send is tested (or the call is dominated by CanSend()==true on the same port)", 0)
 	stFail := c.Rule(cfg.RuleBase+".commit-on-failure", "no commit action (consume input, table/queue update, counter) is reachable in the same iteration on a path where Send returned an error", 0)
 	stCons := c.Rule(cfg.RuleBase+".success-consumes", "when a handler peeked an input and its Send succeeded, every path to the handler's return consumes that input (else it is handled twice)", 0)
+	stProg := c.Rule(cfg.RuleBase+".progress-after-consume", "a boolean step function that consumed a message returns true on every path from there (else the ticking component can sleep with input pending)", 0)
 	stPre := c.Rule(cfg.RuleBase+".consume-before-send", "no input-consuming action precedes, in the same iteration, a Send that can fail", 0)
 
 	direct := map[*ssa.Function]bool{} // has direct send or effect
@@ -346,6 +349,53 @@ func RunProto(c *core.Ctx, cfg *ProtoCfg) protoResult {
 						fmt.Sprintf("after a successful Send on %s a path returns without consuming the input peeked at %s: the same input is handled again and the output duplicated [scope %s]", portOfCall(s.Instr), inPort, core.FuncName(fn)))
 				} else {
 					stCons.Sample("%s: success of Send:%s always consumes input of %s", core.FuncName(fn), portOfCall(s.Instr), inPort)
+				}
+			}
+		}
+		// progress-after-consume: a step function that consumed its input must report progress,
+		// otherwise the ticking component may go to sleep with further input already queued
+		// (ports only wake a component when their buffer goes from empty to non-empty)
+		if res := fn.Signature.Results(); res.Len() == 1 && types.Identical(res.At(0).Type(), types.Typ[types.Bool]) && !cfg.NoProgressRule {
+			for _, e := range effects {
+				eff, _ := cfg.effectOf(e)
+				if !eff.Consume || eff.Label != "RetrieveIncoming" {
+					continue
+				}
+				if _, ex := cfg.Exempt[core.FuncName(fn)+":progress"]; ex {
+					continue
+				}
+				stProg.Instances++
+				bad := false
+				var start core.Facts
+				if rv, isV := e.Instr.(ssa.Value); isV {
+					start = core.FactFor(e, rv, 1) // a message was actually retrieved (non-nil)
+				}
+				g.Walk(core.After(e, start), core.WalkOpts{ForwardOnly: true}, func(x core.State) {
+					r, ok := x.N.Instr.(*ssa.Return)
+					if !ok || x.N.Frame.Parent != nil || len(r.Results) != 1 {
+						return
+					}
+					if v, isC := core.ConstBool(r.Results[0]); isC {
+						if !v {
+							bad = true
+						}
+						return
+					}
+					if call, isCall := r.Results[0].(*ssa.Call); isCall {
+						if cal := call.Call.StaticCallee(); cal != nil && alwaysReturnsTrue(cal) {
+							return
+						}
+					}
+					if core.EvalFact(x.N, r.Results[0], x.F) <= 0 {
+						bad = true
+					}
+				})
+				stProg.Ob(!bad)
+				if bad {
+					c.ReportAt(cfg.RuleBase+".progress-after-consume", fn, e.Instr.Pos(), "no-progress-after:"+portOfCall(e.Instr),
+						fmt.Sprintf("%s can return false (no progress) on a path on which it consumed a message from %s: the component may stop ticking while further messages wait in the port, which is never drained again", core.FuncName(fn), portOfCall(e.Instr)))
+				} else {
+					stProg.Sample("%s: reports progress on every path after consuming from %s", core.FuncName(fn), portOfCall(e.Instr))
 				}
 			}
 		}
@@ -557,4 +607,38 @@ func CheckRetryLists(c *core.Ctx, p *PkgInfo, rule string, floor int) {
 			}
 		}
 	}
+}
+
+// alwaysReturnsTrue: every return of fn yields the constant true.
+func alwaysReturnsTrue(fn *ssa.Function) bool {
+	if len(fn.Blocks) == 0 {
+		return false
+	}
+	n := 0
+	for _, b := range fn.Blocks {
+		for _, in := range b.Instrs {
+			r, ok := in.(*ssa.Return)
+			if !ok {
+				continue
+			}
+			// a return that directly follows a no-return call (log.Panicf) is dead
+			dead := false
+			for _, i2 := range b.Instrs {
+				if core.IsNoReturnCall(i2) {
+					dead = true
+				}
+			}
+			if dead {
+				continue
+			}
+			n++
+			if len(r.Results) != 1 {
+				return false
+			}
+			if v, isC := core.ConstBool(r.Results[0]); !isC || !v {
+				return false
+			}
+		}
+	}
+	return n > 0
 }
